@@ -7,6 +7,7 @@ package internal
 import (
 	"context"
 	"sort"
+	"sync"
 
 	"go.etcd.io/etcd/api/v3/mvccpb"
 	clientv3 "go.etcd.io/etcd/client/v3"
@@ -21,6 +22,7 @@ type VerifWatch struct {
 
 // VerifRecorder is an UpdateListener that records the calls it receives.
 type VerifRecorder struct {
+	Mu  sync.Mutex
 	Log [][3]string
 	Fwd UpdateListener
 	// Hook, when set, runs inside OnAdd / OnDelete after the call was forwarded (the executor
@@ -29,7 +31,9 @@ type VerifRecorder struct {
 }
 
 func (r *VerifRecorder) OnAdd(kv KV) {
+	r.Mu.Lock()
 	r.Log = append(r.Log, [3]string{"add", kv.Key, kv.Val})
+	r.Mu.Unlock()
 	if r.Fwd != nil {
 		r.Fwd.OnAdd(kv)
 	}
@@ -39,7 +43,9 @@ func (r *VerifRecorder) OnAdd(kv KV) {
 }
 
 func (r *VerifRecorder) OnDelete(kv KV) {
+	r.Mu.Lock()
 	r.Log = append(r.Log, [3]string{"del", kv.Key, kv.Val})
+	r.Mu.Unlock()
 	if r.Fwd != nil {
 		r.Fwd.OnDelete(kv)
 	}
@@ -50,6 +56,8 @@ func (r *VerifRecorder) OnDelete(kv KV) {
 
 // Take returns and clears the log.
 func (r *VerifRecorder) Take() [][3]string {
+	r.Mu.Lock()
+	defer r.Mu.Unlock()
 	l := r.Log
 	r.Log = nil
 	if l == nil {
